@@ -4,6 +4,7 @@ import (
 	"fmt"
 	"go/constant"
 	"go/token"
+	"go/types"
 	"sort"
 	"strings"
 
@@ -666,6 +667,37 @@ func loopBoundedBy(b *ssa.BasicBlock, bound ssa.Value) *ssa.BasicBlock {
 		if !single {
 			continue
 		}
+		// every turn passes the write exactly once: no way from the body back to the header round the write's block
+		// (a write under a condition, a continue in front of it), and no inner cycle through it
+		avoid := func(from, without, target *ssa.BasicBlock) bool {
+			seen := map[*ssa.BasicBlock]bool{without: true}
+			work := []*ssa.BasicBlock{from}
+			for len(work) > 0 {
+				x := work[len(work)-1]
+				work = work[:len(work)-1]
+				if seen[x] {
+					continue
+				}
+				seen[x] = true
+				if x == target {
+					return true
+				}
+				work = append(work, x.Succs...)
+			}
+			return false
+		}
+		if body != b && avoid(body, b, blk) {
+			continue
+		}
+		inner := false
+		for _, sx := range b.Succs {
+			if sx != blk && avoid(sx, blk, b) {
+				inner = true
+			}
+		}
+		if inner {
+			continue
+		}
 		i0, initConst := flow.ConstInt(init)
 		lim, limConst := flow.ConstInt(y)
 		switch {
@@ -801,6 +833,40 @@ func ruleC02Lower(e *Env) {
 	if gapBad == "" {
 		e.S.Ok(rule, site, "other bytes", "every byte that is not one of I V X L C D M is left unchanged (or, for the other upper-case ASCII letters, lower-cased too: no numeral holds one)", e.Pos(fn))
 	}
+	// every element is treated as the one evaluated above: the only test on a position (an int) is the loop's own
+	// test against the length of the buffer — an index-dependent break or skip is harmless at index 0 and not later
+	{
+		stray := ""
+		for _, b := range fn.Blocks {
+			for _, in := range b.Instrs {
+				bo, ok := in.(*ssa.BinOp)
+				if !ok {
+					continue
+				}
+				switch bo.Op {
+				case token.EQL, token.NEQ, token.LSS, token.LEQ, token.GTR, token.GEQ:
+				default:
+					continue
+				}
+				bt, isB := bo.X.Type().Underlying().(*types.Basic)
+				if !isB || bt.Info()&types.IsInteger == 0 || bt.Kind() == types.Uint8 || bt.Kind() == types.Int32 {
+					continue
+				}
+				lenOf := func(v ssa.Value) bool {
+					x, ok := flow.IsLenOf(v)
+					return ok && flow.RootParam(x) == fn.Params[0]
+				}
+				if !lenOf(bo.X) && !lenOf(bo.Y) {
+					stray = "a test on a position (" + bo.String() + " at " + e.posOf(bo) + ") other than the loop's own bound"
+				}
+			}
+		}
+		if stray != "" {
+			e.S.Unk(rule, site, "every element", "toLower is evaluated on a one-element slice; whether later elements are treated alike is not read: "+stray, e.Pos(fn))
+		} else {
+			e.S.Ok(rule, site, "every element", "no test on a position other than the loop's bound against len(buf): every element is treated as the one evaluated", e.Pos(fn))
+		}
+	}
 	// applied exactly under FormatLowerCase, after the last write, to the whole numeral
 	if df != nil {
 		lc, _ := tabConstInt(e, "roman", "FormatLowerCase")
@@ -823,6 +889,7 @@ func ruleC02Lower(e *Env) {
 			for _, call := range e.C.Calls(g, func(f *ssa.Function) bool { return f == fn }) {
 				ncalls++
 				okGate := ""
+				var gateBlk *ssa.BasicBlock // the block that tests the flag
 				if flags == nil {
 					okGate = "the function calling toLower has no parameter of the flag type"
 				} else {
@@ -851,6 +918,7 @@ func ruleC02Lower(e *Env) {
 						}
 						if at == call.Block() {
 							okGate = ""
+							gateBlk = id
 						} else if id.Succs[side] == d || id.Succs[side].Dominates(d) {
 							okGate = "toLower runs under a further condition besides the FormatLowerCase flag: with the flag set some numerals keep their upper-case letters"
 						}
@@ -893,6 +961,24 @@ func ruleC02Lower(e *Env) {
 							}
 							if after {
 								okGate = "a write to the numeral's buffer can follow the lower-casing: letters written afterwards keep their case"
+							}
+							// … and the flag is asked for everything written: from a write no return is reached round the
+							// flag test (`if n < 4000 && f&FormatLowerCase != 0`: the numerals from 4000 on skip it)
+							if gateBlk != nil && b != gateBlk {
+								seen := map[*ssa.BasicBlock]bool{gateBlk: true}
+								work := []*ssa.BasicBlock{b}
+								for len(work) > 0 {
+									x := work[len(work)-1]
+									work = work[:len(work)-1]
+									if seen[x] {
+										continue
+									}
+									seen[x] = true
+									if _, isRet := x.Instrs[len(x.Instrs)-1].(*ssa.Return); isRet {
+										okGate = "the FormatLowerCase test is itself conditional: after letters are written a return is reached without the flag being asked, so with the flag set some numerals keep their upper-case letters"
+									}
+									work = append(work, x.Succs...)
+								}
 							}
 						}
 					}
